@@ -1,1 +1,3 @@
-import Model.Rainflow.Spec
+/- C02: detectors realise the counting rules. -/
+import Proofs.C02FourPoint
+import Proofs.C02Fkm
